@@ -151,6 +151,9 @@ def configs(ctx):
                         if not keep:
                             continue
                     out.append((kind, d, m, nz, preset))
+        out.append((kind, 2, 2, "scalar", "bulk"))
+        if ctx.thorough:
+            out.append((kind, 1, 3, "scalar", "bulk"))
     return out
 
 
@@ -169,7 +172,7 @@ def make_model(kind, d, m, nz):
 def apply_preset(model, kind, d, m, preset):
     import torch
 
-    if preset == "default" or model.model is None:
+    if preset in ("default", "bulk") or model.model is None:
         return
     g = model.model
     with torch.no_grad():
@@ -204,7 +207,10 @@ def yv(i, m):
     return np.array([((i * 3 + 2 * t) % 5 - 2) * 0.5 for t in range(m)])
 
 
-def ops_for(kind):
+def ops_for(kind, preset="default"):
+    if preset == "bulk":
+        # larger training sets (up to ~50 points): a 12-point batch next to single points
+        return ["add12", "add_o0" if kind == "list" else "add1", "update", "clear"]
     if kind == "list":
         return ["add_o0", "add_o1", "add_mixed", "add_rep", "update", "clear"]
     return ["add1", "add2", "add_rep", "update", "clear"]
@@ -213,6 +219,21 @@ def ops_for(kind):
 def do_add(model, kind, op, counter, d, m, held):
     """apply an add op to the real model; mirror it into `held` (the wrapper-level data)"""
     i = counter[0]
+    if op == "add12":
+        X = np.array([pt(i + r, d) + 0.004 * ((i + r) // 4) for r in range(12)])
+        Yfull = np.array([yv(i + r, m) for r in range(12)])
+        counter[0] += 12
+        if kind == "list":
+            idx = [(i + r) % m for r in range(12)]
+            y = np.array([Yfull[r, idx[r]] for r in range(12)])
+            model.add_sample(X, y, idx)
+            for a, b, o in zip(X, y, idx):
+                held[o][0].append(a); held[o][1].append(b)
+        else:
+            model.add_sample(X, Yfull)
+            for a, b in zip(X, Yfull):
+                held[0].append(a); held[1].append(b)
+        return
     if kind == "list":
         if op == "add_o0":
             X = np.array([pt(i, d)])
@@ -350,11 +371,11 @@ def check_hyper_report(model, kind, cfg, res, seq):
 def run_config(cfg, depth, res, only=None):
     core.import_vopy()
     kind, d, m, nz, preset = cfg
-    ops = ops_for(kind)
+    ops = ops_for(kind, preset)
     seen = set()
     kinds = {}
     base_depth = depth
-    if kind != "list":
+    if kind != "list" and preset != "bulk":
         depth = depth + 1  # one extra level restricted to update...clear...update histories
     for L in range(1, depth + 1):
         for seq in itertools.product(ops, repeat=L):
